@@ -223,3 +223,114 @@ func runC06ExactMsize(rcx *RunCtx, k int) {
 	})
 	finishRun(rcx)
 }
+
+// A request is executing in the backend (parked).  Variant "flush": a Tflush
+// naming it arrives and waits; an unrelated request sent after the flush is
+// still served - somebody keeps reading the connection.  Variant "half-close":
+// the peer closes its sending direction (it has nothing more to ask) while
+// the request executes; the reply is still delivered on the direction that
+// is open.
+var c06ParkedVariants = []string{"flush-then-traffic", "two-flushes-then-traffic", "half-close", "half-close-two-in-flight"}
+
+func c06ParkedCount() int { return len(c06ParkedVariants) * 3 }
+
+func runC06Parked(rcx *RunCtx, k int) {
+	cfg := simCfg(rcx)
+	variant := c06ParkedVariants[k%len(c06ParkedVariants)]
+	xkind := k / len(c06ParkedVariants) // 0 read, 1 write, 2 getattr
+	rcx.Label = fmt.Sprintf("parked %s x=%d", variant, xkind)
+	rcx.Sample = map[string]interface{}{"scenario": variant, "parked_request": []string{"read", "write", "getattr"}[xkind]}
+	find := func(oracle, key, format string, args ...interface{}) {
+		rcx.Find("C06", oracle, key, format, args...)
+	}
+	rcx.Res = simrt.Run(cfg, rcx.Sched, func() {
+		fs := simfs.New()
+		fs.MkPath("/f")
+		fs.MkPath("/g")
+		fs.MkPath("/other")
+		w := NewWorld(nil, fs)
+		c := w.Connect()
+		if !c.Start(8192, "9P2000.L.Google.7") || !c.WalkTo(0, 1, "/f") || !c.WalkTo(0, 2, "/g") || !c.WalkTo(0, 3, "/other") ||
+			Errno(c.RPC(&rc.Tlopen{Fid: 1, Flags: 2})) != 0 || Errno(c.RPC(&rc.Tlopen{Fid: 2, Flags: 2})) != 0 {
+			find("setup", "setup", "setup failed")
+			return
+		}
+		build := func(fid uint32) (rc.Message, string) {
+			switch xkind {
+			case 0:
+				return &rc.Tread{Fid: fid, Offset: 0, Count: 8}, "ReadAt"
+			case 1:
+				return &rc.Twrite{Fid: fid, Offset: 0, Data: []byte("parked")}, "WriteAt"
+			}
+			return &rc.Tgetattr{Fid: fid, Mask: rc.GetattrAll}, "GetAttr"
+		}
+		var held []*simfs.Call
+		want := 1
+		if variant == "half-close-two-in-flight" {
+			want = 2
+		}
+		mark := fs.NCalls
+		_, method := build(1)
+		fs.Hold = func(cl *simfs.Call) bool {
+			if cl.Seq >= mark && len(held) < want && cl.Method == method {
+				held = append(held, cl)
+				return true
+			}
+			return false
+		}
+		var xs []*FrameRec
+		for i := 0; i < want; i++ {
+			m, _ := build(uint32(1 + i))
+			xs = append(xs, c.Send(c.Tag(), m))
+		}
+		simrt.WaitQuiescent()
+		if len(held) != want {
+			find("setup", "hold", "the request did not park in the backend")
+			return
+		}
+		switch variant {
+		case "flush-then-traffic", "two-flushes-then-traffic":
+			fl := []*FrameRec{c.Send(c.Tag(), &rc.Tflush{OldTag: xs[0].Tag})}
+			if variant == "two-flushes-then-traffic" {
+				fl = append(fl, c.Send(c.Tag(), &rc.Tflush{OldTag: xs[0].Tag}))
+			}
+			simrt.WaitQuiescent()
+			for i := 0; i < 3; i++ {
+				g := c.Send(c.Tag(), &rc.Tgetattr{Fid: 3, Mask: rc.GetattrAll})
+				simrt.WaitQuiescent()
+				if g.Reply == nil {
+					find("delayed-by-unordered-request", "behind-waiting-flush", "request %d on an unrelated file, sent after a Tflush that is waiting for a request parked in %s, is not answered: nobody reads the connection", i+1, method)
+					break
+				}
+			}
+			fs.Hold = nil
+			held[0].Release()
+			simrt.WaitQuiescent()
+			for _, f := range fl {
+				if f.Reply == nil || f.Reply.Type != rc.TypeRflush {
+					find("no-reply", "flush", "%s not answered with Rflush after the flushed request finished", f)
+				}
+			}
+		default: // half-close
+			c.Net.C2S.CloseWrite()
+			simrt.WaitQuiescent()
+			fs.Hold = nil
+			for _, h := range held {
+				h.Release()
+				simrt.WaitQuiescent()
+			}
+			c.closed = true // nothing more can be sent
+		}
+		for _, x := range xs {
+			if x.Reply == nil {
+				find("no-reply", variant, "%s, executing while %s, never got its reply although the reply direction was open", x, variant)
+			} else if x.Reply.Type == rc.TypeRlerror {
+				find("wrong-reply", variant, "%s answered %s", x, x.Reply)
+			}
+		}
+		fs.Hold = nil
+		w.Shutdown()
+		rcx.Findings = append(rcx.Findings, w.Findings...)
+	})
+	finishRun(rcx)
+}
